@@ -126,8 +126,9 @@ type Config struct {
 	MemfsSeed uint64 `json:"memfs_seed"` // metadata seed for the in-memory store
 
 	Host        string `json:"host,omitempty"`          // Host header of raw requests (default dav.test)
-	RootForm    string `json:"root_form,omitempty"`     // how the served directory is spelled in the configuration: "" clean | "slash" | "dot" | "double"
+	RootForm    string `json:"root_form,omitempty"`     // how the served directory is spelled in the configuration: "" clean | "slash" | "dot" | "double" | relative to the working directory: "rel-dot" (.) | "rel-name" | "rel-dotslash"
 	ZoneOffsetS int    `json:"zone_offset_s,omitempty"` // local time zone of the server process (seconds east of UTC)
+	Redirected  bool   `json:"redirected,omitempty"`    // concurrent plans: every answer comes from another origin than the configured endpoint (the HTTP client followed a redirect: Response.Request names https://www.<host>)
 	Neighbour   bool   `json:"neighbour,omitempty"`     // a second LocalFileSystem with another root serves the same names in between
 	Server      string `json:"server,omitempty"`        // "" (file server on Store) | caldav | carddav | webdav-mem | webdav-local | principal
 	Prefix      string `json:"prefix,omitempty"`        // mount prefix of the CalDAV/CardDAV handler
